@@ -259,6 +259,16 @@ func c19ProcCases() []c19ProcCase {
 }
 
 func c19ProcRun(c *fw.Ctx) {
+	for i, cas := range c19VanishCases() {
+		if !c.Mine(100+i) || c.Expired() {
+			continue
+		}
+		if !c.Begin(func() any { return cas }) {
+			continue
+		}
+		c.Guard("proc", cas, func() { c19VanishExec(c, cas) })
+		c.Nontrivial(1)
+	}
 	for i, cas := range c19ProcCases() {
 		if !c.Mine(i) || c.Expired() {
 			continue
@@ -272,6 +282,11 @@ func c19ProcRun(c *fw.Ctx) {
 }
 
 func c19ProcReplay(c *fw.Ctx, raw json.RawMessage) {
+	var v c19VanishCase
+	if err := json.Unmarshal(raw, &v); err == nil && v.Proto == "smtp-data" {
+		c.Guard("proc", v, func() { c19VanishExec(c, v) })
+		return
+	}
 	var cas c19ProcCase
 	if err := json.Unmarshal(raw, &cas); err != nil {
 		c.T.Fatalf("VERIF-INFRA bad case: %v", err)
@@ -281,4 +296,57 @@ func c19ProcReplay(c *fw.Ctx, raw json.RawMessage) {
 
 func init() {
 	fw.Register(&fw.Body{ID: "C19", Part: "proc", Run: c19ProcRun, ReplayCase: c19ProcReplay})
+}
+
+// Sessions whose client goes away in the middle of the message text - also of a message that is
+// already larger than the limit - end, so that Drain returns: real goroutines, real time, a
+// connection over net.Pipe.  "vanish": the client closes; "stall": the client stays connected
+// and silent, and the idle timeout (2 s here) ends the session.  Drain is given a minute.
+
+type c19VanishCase struct {
+	Proto    string `json:"proto"` // always smtp-data
+	BodySize int    `json:"body_size"`
+	Limit    int    `json:"limit"`
+	How      string `json:"how"` // vanish | stall
+}
+
+func c19VanishExec(c *fw.Ctx, cas c19VanishCase) {
+	smtp := sys.DefaultSMTP()
+	smtp.MaxMessageBytes = cas.Limit
+	smtp.Timeout = 2 * time.Second
+	s := sys.New(sys.Spec{Store: sys.StoreSpec{Backend: "mem"}, SMTP: smtp, NoHub: true})
+	defer s.Close()
+	k := s.DialSMTP()
+	d := &sys.SMTPDriver{K: k}
+	d.Greeting()
+	for _, l := range []string{"HELO c", "MAIL FROM:<s@o.test>", "RCPT TO:<r@x.test>"} {
+		d.Cmd(l)
+	}
+	if r := d.Cmd("DATA"); r.Code != 354 {
+		c.T.Fatalf("VERIF-INFRA DATA not accepted: %s", r.String())
+	}
+	// message text without the terminating dot
+	text := strings.Repeat("a line of the message text\r\n", cas.BodySize/28+1)
+	_ = k.Write([]byte(text))
+	if cas.How == "vanish" {
+		k.Close()
+	}
+	drained := make(chan struct{})
+	go func() { s.SMTP.Drain(); close(drained) }()
+	select {
+	case <-drained:
+	case <-time.After(60 * time.Second):
+		c.Violate("drain-never-returns|"+cas.How, fmt.Sprintf("an SMTP session was in the middle of the message text (%d bytes sent, limit %d) when its client %s; a minute later the session has not ended and Drain has not returned\n  %s", len(text), cas.Limit, map[string]string{"vanish": "closed the connection", "stall": "fell silent (idle timeout 2 s)"}[cas.How], strings.Join(d.Log, "\n  ")), cas)
+	}
+	k.Close()
+}
+
+func c19VanishCases() []c19VanishCase {
+	var out []c19VanishCase
+	for _, how := range []string{"vanish", "stall"} {
+		for _, size := range []int{100, 3000} { // within the limit, and already over it
+			out = append(out, c19VanishCase{Proto: "smtp-data", BodySize: size, Limit: 1000, How: how})
+		}
+	}
+	return out
 }
